@@ -72,6 +72,19 @@ class State:
 IGNORABLE_CALLS = ("print", "warnings.warn")
 
 
+_KNOWN_API = None
+
+
+def _known_api():
+    global _KNOWN_API
+    if _KNOWN_API is None:
+        import json
+        import os
+        p = os.path.join(os.path.dirname(os.path.dirname(os.path.abspath(__file__))), "contracts", "known_api.json")
+        _KNOWN_API = frozenset(json.load(open(p))) if os.path.exists(p) else frozenset()
+    return _KNOWN_API
+
+
 class Interp:
     def __init__(self, cls=None, inline=True, max_depth=6, max_paths=4000, pure=(), assume=None,
                  inline_filter=None, known_none=()):
@@ -86,6 +99,7 @@ class Interp:
         self.inline_filter = inline_filter
         self.unresolved = []            # linkage: self attributes / methods that do not resolve
         self.inline_functions = set()   # names of module-level GemClus functions to inline (e.g. check_groups)
+        self.known_api = _known_api()   # names that existed when the contracts were written; any other GemClus helper is inlined
 
     # ------------------------------------------------------------ entry
     def run_method(self, name, args=None, owner=None, self_term=("var", "self")):
@@ -159,6 +173,9 @@ class Interp:
         if isinstance(s, ast.Assign):
             out = []
             for st2, v in self.ev(s.value, st, glob, owner, depth):
+                if st2.ended == "raise":        # raised inside an inlined callee: the statement is not completed
+                    out.append(st2)
+                    continue
                 sts = [st2]
                 for tgt in s.targets:
                     sts = [x for y in sts for x in self.assign(tgt, v, y, glob, owner, depth)]
@@ -169,6 +186,9 @@ class Interp:
                 return [st]
             out = []
             for st2, v in self.ev(s.value, st, glob, owner, depth):
+                if st2.ended == "raise":
+                    out.append(st2)
+                    continue
                 out.extend(self.assign(s.target, v, st2, glob, owner, depth))
             return out
         if isinstance(s, ast.AugAssign):
@@ -176,6 +196,9 @@ class Interp:
             load = ast.copy_location(_as_load(s.target), s.target)
             for st2, cur in self.ev(load, st, glob, owner, depth):
                 for st3, v in self.ev(s.value, st2, glob, owner, depth):
+                    if st3.ended == "raise":
+                        out.append(st3)
+                        continue
                     nv = ("binop", type(s.op).__name__, cur, v)
                     # augmented assignment mutates the object held by the target in place when it is an array / list
                     st3.events.append(("mutate", cur, ("aug", type(s.op).__name__, v), st3.loops))
@@ -187,7 +210,8 @@ class Interp:
                 return [st]
             out = []
             for st2, v in self.ev(s.value, st, glob, owner, depth):
-                st2.ended, st2.ret = "return", v
+                if st2.ended != "raise":        # `return helper(...)` where the inlined helper raised stays a raising path
+                    st2.ended, st2.ret = "return", v
                 out.append(st2)
             return out
         if isinstance(s, ast.Raise):
@@ -204,15 +228,18 @@ class Interp:
         if isinstance(s, ast.If):
             out = []
             for st2, c in self.cond(s.test, st, glob, owner, depth):
+                if st2.ended == "raise":
+                    out.append(st2)
+                    continue
                 if c is True:
                     out.extend(self.exec_block(s.body, [st2], glob, owner, depth))
                 elif c is False:
                     out.extend(self.exec_block(s.orelse, [st2], glob, owner, depth))
                 else:
                     a = st2.copy()
-                    a.pc.append((c, True))
+                    a.pc.append(pc_entry(c, True))
                     b = st2.copy()
-                    b.pc.append((c, False))
+                    b.pc.append(pc_entry(c, False))
                     ra = self.exec_block(s.body, [a], glob, owner, depth)
                     rb = self.exec_block(s.orelse, [b], glob, owner, depth)
                     out.extend(self.merge_ignorable(st2, ra, rb))
@@ -257,6 +284,22 @@ class Interp:
                     m.events.extend(ea)
                     m.events.extend(eb)
                     return [m]
+            # an if / else that only binds local names (no call, store or mutation on either side) is the statement form of a
+            # conditional expression: continue with ONE state whose differing locals are ite terms, exactly as
+            # `x = a if c else b` would have produced
+            if (not a.ended and not b.ended and a.heap == b.heap and set(a.env) == set(b.env)
+                    and len(a.pc) == len(base.pc) + 1 and len(b.pc) == len(base.pc) + 1 and a.pc[-1][0] == b.pc[-1][0]):
+                ea, eb = a.events[len(base.events):], b.events[len(base.events):]
+                harmless = lambda e: e[0] == "read" or (e[0] == "call" and (e[2] in self.pure or e[2] in _PURE_BUILTINS))
+                if all(harmless(e) for e in ea) and all(harmless(e) for e in eb):      # pure bindings: not even a print / warning
+                    c, pol = a.pc[-1]
+                    m = base.copy()
+                    m.events.extend(ea)
+                    m.events.extend(eb)
+                    for k in a.env:
+                        va, vb = a.env[k], b.env[k]
+                        m.env[k] = va if va == vb else (("ite", c, va, vb) if pol else ("ite", c, vb, va))
+                    return [m]
         return ra + rb
 
     def exec_loop(self, s, st, glob, owner, depth):
@@ -286,7 +329,7 @@ class Interp:
                 bs = []
                 for b2, c in self.cond(s.test, body, glob, owner, depth):
                     if c is not True and c is not False:
-                        b2.pc.append((c, True))
+                        b2.pc.append(pc_entry(c, True))
                     b2.events.append(("loop-guard", lid, c, b2.loops))
                     bs.append(b2)
             res = self.exec_block(s.body, bs, glob, owner, depth)
@@ -350,13 +393,12 @@ class Interp:
             if is_const(v):
                 out.append((st2, bool(v[1])))
             else:
-                # already decided on this path?
+                # already decided on this path?  (path conditions are stored in canonical form, see canon_cond)
                 dec = None
+                cv, flip = canon_cond(v)
                 for c, b in st2.pc:
-                    if c == v:
-                        dec = b
-                    elif c == ("unop", "Not", v) or v == ("unop", "Not", c):
-                        dec = not b
+                    if c == cv:
+                        dec = (b != flip)
                 out.append((st2, dec if dec is not None else v))
         return out
 
@@ -430,7 +472,7 @@ class Interp:
                 else:
                     for s3, a in self.ev(e.body, st2, glob, owner, depth):
                         for s4, b in self.ev(e.orelse, s3, glob, owner, depth):
-                            out.append((s4, ("ite", c, a, b)))
+                            out.append((s4, mk_ite(c, a, b)))
             return out
         if isinstance(e, ast.Subscript):
             return [(s3, ("item", base, idx)) for s2, base in self.ev(e.value, st, glob, owner, depth)
@@ -519,6 +561,22 @@ class Interp:
                 idx = self.cls.__mro__.index(base)
                 prev = self.cls.__mro__[idx - 1] if idx > 0 else None
                 return self.call_method(f[2], args[0], args[1:], kw, st, glob, owner, depth, after=prev, fsrc=fsrc)
+        if isinstance(f, tuple) and f[0] == "ite":
+            # (A if c else B)(args): one path per branch, the condition joins the path condition
+            out = []
+            dec = None
+            for c_, b_ in st.pc:
+                if c_ == f[1]:
+                    dec = b_
+            for pol, fb in ((True, f[2]), (False, f[3])):
+                if dec is not None and dec != pol:
+                    continue
+                s2 = st.copy() if dec is None else st
+                if dec is None:
+                    s2.pc.append((f[1], pol))
+                nm = fb[1] if isinstance(fb, tuple) and fb[0] in ("global", "builtin", "free") else fsrc
+                out.extend(self.apply(fb, nm, args, kw, s2, glob, owner, depth))
+            return out
         if isinstance(f, tuple) and f[0] == "closure":
             node, env, g2, own2 = self.closures[f[1]]
             return self.inline_fn(node, env, args, kw, st, g2, own2, depth, f[2])
@@ -528,7 +586,8 @@ class Interp:
             obj = glob.get(name)
             import types
             if (self.inline and isinstance(obj, types.FunctionType) and (getattr(obj, "__module__", "") or "").startswith("gemclus")
-                    and depth < self.max_depth and name in self.inline_functions and ("fn", name) not in self.frames):
+                    and depth < self.max_depth and (name in self.inline_functions or obj.__name__ not in self.known_api)
+                    and ("fn", name) not in self.frames):
                 try:
                     node, fobj = fn_ast(obj)
                 except (OSError, TypeError):
@@ -559,8 +618,9 @@ class Interp:
                 self.unresolved.append(m)
             return [self.opaque_call(f"self.{m}", ("attr", selft, m), args, kw, st)]
         mod = getattr(o2, "__module__", "") or ""
+        # a method that did not exist when the contracts were written is a helper extracted later: always seen through
         want_inline = (self.inline and mod.startswith("gemclus") and depth < self.max_depth
-                       and (self.inline_filter is None or self.inline_filter(o2, m)))
+                       and (self.inline_filter is None or self.inline_filter(o2, m) or m not in self.known_api))
         if isinstance(f2, property):
             want_inline = False
         if not want_inline or (o2, m) in self.frames:
@@ -618,6 +678,37 @@ class Interp:
             out.append((r, v))
         # raised paths must stay ended: exec_block skips ended states
         return out
+
+
+_PURE_BUILTINS = frozenset(("dict", "list", "tuple", "set", "frozenset", "len", "int", "float", "bool", "str", "isinstance", "callable", "range"))
+_NEG = {"IsNot": "Is", "NotEq": "Eq", "NotIn": "In"}
+
+
+def canon_cond(v):
+    """canonical form of a branch condition: negations are folded into the polarity, so that `if x is not None: A else: B`,
+    `if x is None: B else: A` and `if not (x is None): A ...` leave the same path conditions.  Returns (term, flipped)."""
+    flip = False
+    while isinstance(v, tuple):
+        if v[0] == "unop" and v[1] == "Not":
+            v, flip = v[2], not flip
+            continue
+        if v[0] == "cmp" and len(v[1]) == 1 and v[1][0] in _NEG:
+            v, flip = ("cmp", (_NEG[v[1][0]],), v[2]), not flip
+            continue
+        break
+    return v, flip
+
+
+def pc_entry(c, polarity):
+    c2, f = canon_cond(c)
+    return (c2, polarity != f)
+
+
+def mk_ite(c, a, b):
+    c2, f = canon_cond(c)
+    if a == b:
+        return a
+    return ("ite", c2, b, a) if f else ("ite", c2, a, b)
 
 
 def _as_load(t):
